@@ -22,9 +22,9 @@ m = dict(version=1,
         source_commits=hooks, add_only=True),
     engines=[
         dict(name="E3-bfs", path="engine/bfs", serves_properties=["C01","C02","C09","C10","C11","C16","C17"], kind_free_text="explicit-state BFS over the real transition functions; successors by path replay on fresh instances; lock-step reference models"),
-        dict(name="E1-sched", path="engine/sched", serves_properties=["C04","C15","C14"], kind_free_text="cooperative scheduler + preemption-bounded stateless DFS over a sync shim injected by overlay"),
+        dict(name="E1-sched", path="engine/sched", serves_properties=["C04","C15","C14","C17"], kind_free_text="cooperative scheduler (goroutine-aware; token mode with detection of detached work, goroutine mode with quiescence-delimited steps) + stateless DFS: all interleavings for small scenarios, preemption-bounded otherwise; sync shim injected by overlay into services/locker/syncmap and services/process/standard"),
         dict(name="E2-dfs", path="engine/dfs", serves_properties=["C06","C13","C20"], kind_free_text="deviation-bounded DFS over environment answers (fault injection at every dependency call site)"),
-        dict(name="E4-crash", path="engine/crash", serves_properties=["C03"], kind_free_text="crash-image explorer: every syscall boundary x persistence variants, real recovery; real SIGKILL at hook points"),
+        dict(name="E4-crash", path="engine/crash", serves_properties=["C03"], kind_free_text="crash-image explorer: every syscall boundary x persistence variants, real recovery; real SIGKILL at hook points; storage-full enumeration (RLIMIT_FSIZE at every request and offset)"),
         dict(name="E5-grid", path="engine/checks", serves_properties=["C05","C07","C08","C12","C14","C18","C19","C20"], kind_free_text="exhaustive finite grids against independent oracles"),
         dict(name="E6-dkg", path="engine/rig", serves_properties=["C12","C13","C14","C16","C17"], kind_free_text="in-memory DKG cluster through the real receiver handlers"),
     ],
